@@ -8,11 +8,15 @@
 (*               stream (nothing lost, duplicated or reordered)             *)
 (*   Complete  : with bounded loss everything written is eventually read    *)
 (*   Datagram  : intact or not at all, from the connected peer only         *)
+(*   Greeting  : the same in the other direction -- in some runs the server *)
+(*               speaks first (writes on the accepted connection before it  *)
+(*               reads) and the client reads that before it writes          *)
 (***************************************************************************)
 EXTENDS Integers, Sequences, FiniteSets, TLC, Json, IOUtils
 Rec == ndJsonDeserialize(IOEnv.TRACE)
 VARIABLES l, s
 Init0 == [run |-> -1, backlog |-> FALSE, stream |-> TRUE, totals |-> <<>>, nwrites |-> <<>>, got |-> [c \in 0..7 |-> 0], finished |-> {}, maxq |-> 0,
+          greet |-> 0, cgot |-> [c \in 0..7 |-> 0], ngreet |-> 0,
           bad |-> {}, nbad |-> 0, runs |-> 0, events |-> 0]
 Viol(t, e, clause) ==
   IF Cardinality({x \in t.bad : x.clause = clause}) >= 3 THEN [t EXCEPT !.nbad = @ + 1]
@@ -20,7 +24,12 @@ Viol(t, e, clause) ==
 Step(t, e) ==
   LET t0 == [t EXCEPT !.events = @ + 1] IN
   CASE e.ev = "reset" -> [t0 EXCEPT !.run = e.run, !.runs = @ + 1, !.stream = e.stream, !.backlog = e.backlog, !.totals = e.totals, !.nwrites = e.nwrites,
-                                   !.got = [c \in 0..7 |-> 0], !.finished = {}]
+                                   !.got = [c \in 0..7 |-> 0], !.finished = {}, !.greet = e.greet, !.cgot = [c \in 0..7 |-> 0]]
+    [] e.ev = "cread" ->
+         LET t1 == IF e.len <= e.n THEN t0 ELSE Viol(t0, e, "recv(n) returned more than n bytes")
+             t2 == IF e.ok # e.len \/ e.off # t.cgot[e.c] THEN Viol(t1, e, "bytes read by the client are not the next bytes the server wrote on the accepted connection")
+                   ELSE IF e.off + e.len > t.greet THEN Viol(t1, e, "more bytes read than written") ELSE t1
+         IN [t2 EXCEPT !.cgot[e.c] = @ + e.len, !.ngreet = @ + e.len]
     [] e.ev = "read" ->
          LET t1 == IF e.n < 0 \/ e.len <= e.n THEN t0 ELSE Viol(t0, e, "recv(n) returned more than n bytes")    \* (n = -1: a whole-message read)
              t2 == IF e.c < 0 THEN Viol(t1, e, "the first bytes read are not the beginning of any client's stream")
@@ -36,6 +45,8 @@ Step(t, e) ==
          ELSE IF e.k >= t.nwrites[e.c + 1] THEN Viol(t0, e, "a datagram that was never sent was delivered") ELSE t0
     [] e.ev = "end" ->
          IF ~t.stream THEN t0
+         ELSE IF \E c \in 0..(Len(t.totals) - 1) : t.cgot[c] # t.greet
+         THEN Viol(t0, e, "the server wrote first on the accepted connection and the client never received all of it although loss was bounded")
          ELSE IF \A c \in 0..(Len(t.totals) - 1) : t.got[c] = t.totals[c + 1] THEN t0
          ELSE Viol(t0, e, IF t.backlog THEN "[K1] not everything written was delivered: messages beyond the 255-slot socket queue were dropped"
                           ELSE "not everything written was delivered to the reader although loss was bounded")
@@ -45,7 +56,7 @@ Step(t, e) ==
 Init == l = 1 /\ s = Init0
 Next == l <= Len(Rec) /\ s' = Step(s, Rec[l]) /\ l' = l + 1
 Spec == Init /\ [][Next]_<<l, s>>
-Report == TLCSet(1, [bad |-> s.bad, nbad |-> s.nbad, runs |-> s.runs, events |-> s.events])
+Report == TLCSet(1, [bad |-> s.bad, nbad |-> s.nbad, runs |-> s.runs, events |-> s.events, greeting_bytes |-> s.ngreet])
 Final == /\ PrintT(<<"TRACE-RESULT", ToJson(TLCGet(1))>>)
          /\ PrintT(<<"TRACE-SUMMARY", ToJson([events |-> Len(Rec), consumed |-> TLCGet("stats").diameter - 1])>>)
 =============================================================================
